@@ -149,11 +149,43 @@ def forbidden_gate():
     return bad
 
 
+def gen_coq_project():
+    """_CoqProject and Extract.v are generated: every *.v in coq/ is part of the
+    project; Extract.v is assembled from coq/extract.d/*.txt (first lines
+    starting with From/Require are imports, the rest are names to extract)"""
+    imports, names = [], []
+    ed = os.path.join(COQ, "extract.d")
+    for f in sorted(os.listdir(ed)):
+        if not f.endswith(".txt"):
+            continue
+        for line in open(os.path.join(ed, f)):
+            line = line.strip()
+            if not line or line.startswith("#"):
+                continue
+            if line.startswith(("From ", "Require ")):
+                if line not in imports:
+                    imports.append(line)
+            else:
+                names += line.split()
+    ext = ("(* Extract.v -- GENERATED from extract.d/*.txt by harness/common.py; do not edit.\n"
+           "   Only ExtrOcamlBasic is used: Z, N, positive, nat stay the extracted inductive types. *)\n"
+           "From Coq Require Import Extraction ExtrOcamlBasic.\n" + "\n".join(imports) +
+           "\nExtraction Language OCaml.\nExtraction \"model.ml\"\n  " + "\n  ".join(names) + ".\n")
+    p = os.path.join(COQ, "Extract.v")
+    if not os.path.exists(p) or open(p).read() != ext:
+        open(p, "w").write(ext)
+    vs = sorted(f for f in os.listdir(COQ) if f.endswith(".v"))
+    proj = "-Q . Sbepp\n" + "\n".join(vs) + "\n"
+    p = os.path.join(COQ, "_CoqProject")
+    if not os.path.exists(p) or open(p).read() != proj:
+        open(p, "w").write(proj)
+
+
 def ensure_model(force=False):
     """build all .vo files, extract model.ml and compile the OCaml driver"""
     with Lock("model"):
-        srcs = [os.path.join(COQ, f) for f in coq_sources()] + \
-               [os.path.join(COQ, "_CoqProject")] + \
+        srcs = [os.path.join(COQ, f) for f in coq_sources() if f != "Extract.v"] + \
+               tree_files(os.path.join(COQ, "extract.d")) + \
                tree_files(os.path.join(VERIF, "ocaml"), {".ml"})
         key = hash_files(srcs)
         stamp = os.path.join(BUILD, "model.stamp")
@@ -162,6 +194,7 @@ def ensure_model(force=False):
             return drv
         os.makedirs(BUILD, exist_ok=True)
         t0 = time.time()
+        gen_coq_project()
         sh(["coq_makefile", "-f", "_CoqProject", "-o", "Makefile.coq"], cwd=COQ, check=True)
         rc, out, err = sh(["make", "-f", "Makefile.coq", "-k", "-j16"], cwd=COQ, timeout=3000)
         # a broken proof file must not prevent the model from being extracted
